@@ -49,7 +49,10 @@ fn any_param() -> Param {
     assume(cur_part >= 3 || parts[3] == 0);
     assume(cur_part >= 4 || parts[4] == 0);
     assume(cur_part >= 5 || parts[5] == 0);
-    Param { cur_part, parts }
+    let mut q = Param::default();
+    q.cur_part = cur_part;
+    q.parts = parts;
+    q
 }
 
 /// any parser satisfying InvP with the given cur_param (concrete per instance) and state
